@@ -214,9 +214,8 @@ def run(tier):
                 ok = False
                 if a[0] in ("c", "m") and not a[1][1]:
                     d0 = M.trace_back(f, a[1][0])
-                    if d0 and d0[1] != "T" and d0[2][0] == "bin" and d0[2][1] == "Rem":
-                        mod = c10.const_bound(fx, f, d0[2][3])
-                        ok = mod is not None and nwords is not None and ((mod - 1) >> sh) < nwords
+                    mod = rem_bound(fx, f, a)
+                    ok = mod is not None and nwords is not None and ((mod - 1) >> sh) < nwords
                     # a closure capture of such a value
                     if not ok and d0 and d0[1] != "T" and d0[2][0] == "use" and d0[2][1][0] in ("c", "m") and d0[2][1][1][0] == 1:
                         ok = False
@@ -426,6 +425,39 @@ def run(tier):
     import floorcount
     floorcount.rule(fx, ck)
     return ck.finish()
+
+
+def rem_bound(fx, f, op, depth=0):
+    """C when the operand is `_ % C` (C a constant), directly or as a component of the tuple a local helper returns
+    (`let (chunk, index_in_chunk) = slot_position(i)` with `fn slot_position(i) -> (i / CAP, i % CAP)`)"""
+    if op[0] not in ("c", "m") or depth > 4:
+        return None
+    local, proj = op[1][0], op[1][1]
+    fields = [e for e in proj if isinstance(e, list) and e[0] == "f"]
+    if not fields:
+        d0 = M.trace_back(f, local)
+        if not d0 or d0[1] == "T":
+            return None
+        rv = d0[2]
+        if rv[0] == "bin" and rv[1] == "Rem":
+            return c10.const_bound(fx, f, rv[3])
+        if rv[0] == "use" and rv[1][0] in ("c", "m"):
+            return rem_bound(fx, f, rv[1], depth + 1)
+        return None
+    # a component of a tuple: the tuple is the result of a local helper
+    ds = f.defs().get(local, [])
+    if len(ds) != 1 or ds[0][1] != "T" or len(fields) != 1:
+        return None
+    g = fx.fns.get(ds[0][2][1].get("d"))
+    if g is None:
+        return None
+    idx = fields[0][1]
+    bounds = []
+    for bl in g.blocks:
+        for s in bl["s"]:
+            if s[0] == "a" and s[1][0] == 0 and not s[1][1] and s[2][0] == "agg" and isinstance(idx, int) and idx < len(s[2][2]):
+                bounds.append(rem_bound(fx, g, s[2][2][idx], depth + 1))
+    return max(bounds) if bounds and all(b is not None for b in bounds) else None
 
 
 def pooled_tests(f):
